@@ -100,3 +100,25 @@ fn report(fails: Vec<&'static str>) {
         fails.iter().map(|s| format!("\"{}\"", s)).collect::<Vec<_>>().join(",")
     );
 }
+
+/// C15 filter evaluated on concrete data: after ingesting `packet`, the cached records reachable below `service` must be exactly
+/// the packet's records owned by strict subdomains of `service` other than `own`
+fn check_ingest(mgr: &ResourceRecordManager<'static>, recs: &[ResourceRecord<'static>], service: &Name<'static>, own: &Name<'static>) -> Vec<&'static str> {
+    let mut fails = Vec::new();
+    let mgr: &'static ResourceRecordManager<'static> = unsafe { &*(mgr as *const _) };
+    for r in recs {
+        let admissible = is_sub(&r.name, service) && r.name != *own;
+        let name: &'static Name<'static> = Box::leak(Box::new(r.name.clone()));
+        let found = mgr
+            .get_domain_resources(name, DomainResourceFilter::all())
+            .flatten()
+            .any(|x| x == r);
+        let found_exact = {
+            // get_domain_resources(all) uses subtrie semantics; look the record up under its own name only
+            found && mgr.get_domain_resources(name, DomainResourceFilter::cached()).flatten().any(|x| x == r && x.name == r.name)
+        };
+        if admissible && !found_exact { fails.push("lost"); }
+        if !admissible && found_exact { fails.push("filter"); }
+    }
+    fails
+}
